@@ -15,19 +15,27 @@ RULE = ("seeded schedules of 1-3 reader and 0-2 writer threads doing 1-3 "
         "acquire/critical-section/release rounds on a real RWLock over "
         "simulated mutexes (plus readers-only rendezvous runs; 30% of runs "
         "let a thread read in one round and write in another; 20% use two "
-        "lock instances with nested use in a fixed order); a run is "
+        "lock instances with nested use in a fixed order, other instances "
+        "created in between; some locks have served hundreds of rounds "
+        "before; 20% of runs stall one thread for 0.1-1000 simulated "
+        "seconds - timed waits, if the code has any, expire on the "
+        "simulated clock - and 30% declare one thread the main thread); a run is "
         "non-trivial if >= 1 pre-emption happened; distinct = distinct "
         "sha256 of the (thread, mutex-event) sequence")
 COMPONENTS_REAL = ["ecdsa._rwlock.RWLock", "ecdsa._rwlock._LightSwitch",
                    "real OS threads (parked/released one at a time)"]
 COMPONENTS_STUB = ["threading.Lock -> SimLock (blocking decided by the "
-                   "scheduler; wake-up order is a scheduler choice)"]
+                   "scheduler; wake-up order is a scheduler choice; a timed "
+                   "acquire expires on the simulated clock, which jumps to the "
+                   "next timer only when no thread can run)",
+                   "threading.main_thread() (may name a simulated thread)"]
 ASSUMPTIONS = ["one bytecode instruction is atomic (GIL semantics)",
                "threading.Lock semantics as modelled by SimLock: non-owner "
                "release allowed, no fairness",
                "seeded search, not enumeration: a clean batch is evidence, "
                "not proof"]
-SHRINK = [["threads"], ["sched", "trace"], ["sched", "parks"]]
+SHRINK = [["threads"], ["sched", "trace"], ["sched", "parks"],
+          ["sched", "stalls"]]
 REQUIRED_PROBES = {"quick": ["two_readers_inside", "writer_blocked_reader",
                              "acquire_blocked"],
                    "thorough": ["two_readers_inside", "writer_blocked_reader",
@@ -100,6 +108,18 @@ def generate(run_seed, tier):
     gran = r.choice(["instr", "instr", "lock"])
     est = 100 if gran == "instr" else 12
     rs = core.rng(run_seed, "sched")
+    sc = gen_sched(rs, len(threads),
+                   est * max(len(t["rounds"]) for t in threads))
+    if rs.random() < 0.2:
+        # fault: one thread stalls for a long simulated time at some step
+        # (timed waits of the others, if the code has any, expire meanwhile)
+        sc["stalls"] = [[rs.randrange(len(threads)),
+                         rs.randrange(1, est * 2 + 1),
+                         rs.choice([0.1, 5.0, 100.0, 1000.0])]
+                        for _ in range(rs.choice([1, 1, 2]))]
+    if rs.random() < 0.3:
+        # one of the threads is the program's main thread
+        sc["main_tid"] = rs.randrange(len(threads))
     return dict(scenario=scenario, threads=threads, gran=gran, locks=nlocks,
                 warmup=r.choice(["none", "none", "w", "r", "rw"]),
                 # a lock that has already served many rounds (counters far
@@ -108,8 +128,7 @@ def generate(run_seed, tier):
                 warm_rounds=r.choice([0] * 16 + [40, 560, 640]),
                 spacer=r.choice([0] * 8 + [1, 2, 7, 8, 15, 16,
                                            r.randrange(0, 24)]),
-                sched=gen_sched(rs, len(threads),
-                                est * max(len(t["rounds"]) for t in threads)))
+                sched=sc)
 
 
 _setup = {}
@@ -319,6 +338,11 @@ def _execute(prog, rw, out):
     out["states"] = states
     out["trace"] = s.trace
     core.bump(out["faults"], "preemption", s.preemptions)
+    if s.stalls_done:
+        core.bump(out["faults"], "stall", s.stalls_done)
+    if s.timer_fires:
+        core.bump(out["faults"], "timed_wait_expired", s.timer_fires)
+    out["sim_time"] = s.now
     if any(m.max_r >= 2 for m in mons):
         core.bump(out["probes"], "two_readers_inside")
     if _saw_block(s):
@@ -468,4 +492,7 @@ def to_trace(prog):
         return None
     p2 = copy.deepcopy(prog)
     p2["sched"] = dict(kind="trace", seed=0, trace=[list(x) for x in tr])
+    for k in ("stalls", "main_tid"):
+        if k in prog["sched"]:
+            p2["sched"][k] = prog["sched"][k]
     return p2
